@@ -177,8 +177,8 @@ LocalIdShape(s, ch, k, w) ==          \* w = index of the key's last change
                    \* order: a last announcement of that kind is always applied last
                    /\ ~(KeyFam(k) = "v4" /\ ch[w].nhBytes > 0)
 
-(* KNOWN FINDING KF-C11-v4-noroom (findings_proposed/C11-v4-noroom.md), clamp = FALSE.
-   packerV4.pack sizes a classic IPv4 group by
+(* clamp = FALSE (the code before repo commit 9eb707a, findings_proposed/C11-v4-noroom.md; kept as
+   the model of mutant C11-v4-noroom-revert).  packerV4.pack sized a classic IPv4 group by
    maxNLRIs = (limit - 23 - attrBytes) / (5 [+4]), a worst-case NLRI.  Quotient 0: the group is
    dropped without any message or report, although a shorter prefix may fit; quotient < 0
    (Go truncates towards zero): make() panics with a negative capacity. *)
@@ -191,7 +191,7 @@ V4Panics(s, c)   == V4Classic(c) /\ V4MaxNlris(s, c) < 0
 ---------------------------------------------------------------------------
 (* MECHANISM LAYER - shaped like internal/pkg/table/message.go.
    o == [dedup |-> "wire" | "local",   \* key of the last-action-wins map ("wire" = the code)
-         clamp |-> BOOLEAN,            \* TRUE: maxNLRIs is at least 1 (repaired); FALSE = the code
+         clamp |-> BOOLEAN,            \* TRUE: maxNLRIs is at least 1 (the code since 9eb707a)
          order |-> "fwd" | "rev"]      \* Go map iteration order of the attribute groups *)
 
 DedupKey(s, o, c) == IF o.dedup = "local" THEN LocalKey(c) ELSE Key(s, c)
